@@ -289,7 +289,8 @@ def run(chk):
         run_history(chk, binp, steps, rng.below(1 << 30), strace=(h == 0))
         if len(chk.violations) + len(chk.disagreements) > 12:
             break
-    slow_acl(chk, binp)
+    for delay in ((250,) if chk.tier == "quick" else (30, 250, 700)):
+        slow_acl(chk, binp, delay)
     if chk.counts.get("key_files_with_canary", 0) < 3 or chk.counts.get("signed_requests", 0) < 1:
         chk.broken.append({"kind": "gate", "name": "generator sanity", "why": "too few latched keys / signed requests: %r" % dict(chk.counts)})
     chk.coverage["rule"] = ("histories of polls (status error/malformed/doc naming no, the current, a stored or an unknown guid; acquire "
@@ -508,7 +509,7 @@ def run_history(chk, binp, steps, salt, strace=False):
         shutil.rmtree(work, ignore_errors=True)
 
 
-def slow_acl(chk, binp):
+def slow_acl(chk, binp, delay_ms=250):
     """restricting the key directory is slow (changing owner and mode take 250 ms each: a busy or remote file system) on the first start
     with a key directory that is not yet root-only: from the moment a key file exists in it, the directory must be root-only"""
     import subprocess
@@ -541,7 +542,7 @@ def slow_acl(chk, binp):
     try:
         os.makedirs(key_dir, exist_ok=True)
         os.chmod(key_dir, 0o755)          # before the agent starts: a key directory left by an installation that did not restrict it
-        real = Real(binp, key_dir, ["env", "LD_PRELOAD=" + so, "VERIF_SLOW_ACL_MS=250"])
+        real = Real(binp, key_dir, ["env", "LD_PRELOAD=" + so, "VERIF_SLOW_ACL_MS=%d" % delay_ms])
         th = threading.Thread(target=poll, daemon=True)
         th.start()
         if not real.kp.wait_at_gate(timeout=10):
@@ -553,13 +554,13 @@ def slow_acl(chk, binp):
         time.sleep(0.8)
         stop.set()
         th.join(2)
-        chk.case(nontrivial_key=("slow-acl", bool(seen_key), bool(bad)))
+        chk.case(nontrivial_key=("slow-acl", delay_ms, bool(seen_key), bool(bad)))
         chk.count("first_start_with_slow_acl")
         if not seen_key:
             chk.disagreement("key-files", {"stage": "slow acl"}, "the key of the first poll is stored", "no key file")
         elif bad:
             chk.violation("key files exist in a key directory that is not root-only",
-                          {"situation": "first start, key directory still 0755, chown/chmod each take 250 ms; host names key g-1 and hands it out"},
+                          {"situation": "first start, key directory still 0755, chown/chmod each take %d ms; host names" % delay_ms + " key g-1 and hands it out"},
                           expected="mode 0700 uid 0 from the moment a key file exists", observed=bad[0], finding_key="keydir-mode-slow-acl")
     finally:
         stop.set()
